@@ -283,8 +283,11 @@ void quantiles_sketch<T, C, A>::serialize(std::ostream& os, const SerDe& serde) 
   write(os, family);
 
   // side-effect: sort base buffer since always compact
-  std::sort(const_cast<Level&>(base_buffer_).begin(), const_cast<Level&>(base_buffer_).end(), comparator_);
-  const_cast<quantiles_sketch*>(this)->is_base_buffer_sorted_ = true;
+  // (only if needed: sorting again may permute items that compare equal, so that two images of one sketch differ)
+  if (!is_base_buffer_sorted_) {
+    std::sort(const_cast<Level&>(base_buffer_).begin(), const_cast<Level&>(base_buffer_).end(), comparator_);
+    const_cast<quantiles_sketch*>(this)->is_base_buffer_sorted_ = true;
+  }
 
   // empty, ordered, compact are valid flags
   const uint8_t flags_byte(
@@ -331,8 +334,11 @@ auto quantiles_sketch<T, C, A>::serialize(unsigned header_size_bytes, const SerD
   ptr += copy_to_mem(family, ptr);
 
   // side-effect: sort base buffer since always compact
-  std::sort(const_cast<Level&>(base_buffer_).begin(), const_cast<Level&>(base_buffer_).end(), comparator_);
-  const_cast<quantiles_sketch*>(this)->is_base_buffer_sorted_ = true;
+  // (only if needed: sorting again may permute items that compare equal, so that two images of one sketch differ)
+  if (!is_base_buffer_sorted_) {
+    std::sort(const_cast<Level&>(base_buffer_).begin(), const_cast<Level&>(base_buffer_).end(), comparator_);
+    const_cast<quantiles_sketch*>(this)->is_base_buffer_sorted_ = true;
+  }
 
   // empty, ordered, compact are valid flags
   const uint8_t flags_byte(
